@@ -780,6 +780,73 @@ def midframe_close(rng, i):
     return {"kind": "backlog-midframe", "cfg": cfg, "steps": steps}
 
 
+def close_window(rng, i):
+    """Events that arrive in the closing window: the client's Connection.Close has reached the server
+    but the server, before it answers CloseOk, still sends confirms, returned messages, blocked
+    notices and deliveries it owed.  They are forwarded like any others; then everything ends with
+    ClientClosedConnection."""
+    steps, ids = opens(2, rng.sample(range(1, 20), 2))
+    mid = 1000 * (i % 2000) + 300
+    steps.append({"do": "listen", "h": "conn", "what": "blocked", "as": "BL"})
+    lst = ["BL"]
+    for h in ("A", "B"):
+        steps.append(op(h, "select"))
+        if rng.random() < 0.8:
+            steps.append({"do": "listen", "h": h, "what": "confirms", "as": "K" + h})
+            lst.append("K" + h)
+        if rng.random() < 0.8:
+            steps.append({"do": "listen", "h": h, "what": "returns", "as": "R" + h})
+            lst.append("R" + h)
+    cons = []
+    if rng.random() < 0.6:
+        steps.append({"do": "consume", "h": "A", "as": "cA"})
+        cons.append("cA")
+    for h in ("A", "B"):
+        steps.append(op(h, "publish", len=5, pid=30 * i + ids[h], mandatory=True))
+    steps.append({"do": "sync"})
+    steps.append({"do": "hold", "ch": 0})
+    steps.append({"do": "mark"})
+    steps.append({"do": "closeconn", "async": True})
+    steps.append({"do": "await", "ev": "c2s", "n": 1})
+    steps.append({"do": "sync"})
+    evs = []
+    for h in ("A", "B"):
+        evs.append({"k": rng.choice(["ack", "nack"]), "ch": ids[h], "dtag": 1, "multiple": rng.random() < 0.3})
+        mid += 1
+        evs.append({"k": "return", "ch": ids[h], "mid": mid, "len": 5, "chunks": [2, 3], "code": 312, "text": "NO_ROUTE"})
+    evs.append({"k": "blocked", "text": "alarm %d" % i})
+    evs.append({"k": "unblocked"})
+    if cons:
+        mid += 1
+        evs.append(deliver(ids["A"], "cA", mid, 4, [4]))
+    rng.shuffle(evs)
+    k = rng.randrange(1, len(evs) + 1)
+    steps.append(srv(*evs[:k]))
+    if evs[k:]:
+        if rng.random() < 0.5:
+            steps.append({"do": "sync"})
+        steps.append(srv(*evs[k:]))
+    steps.append({"do": "sync"})
+    if rng.random() < 0.6:
+        # ... and the application still submits something in that window (the client's Close is on the
+        # wire, the output buffer empty again): it is never written
+        h = rng.choice(["A", "B"])
+        steps.append({"do": "mark"})
+        late = rng.choice(["publish", "declare_nowait", "purge_nowait"])
+        steps.append(op(h, late, len=rng.choice([0, 7]), pid=30 * i + 29))
+        steps.append({"do": "await", "ev": "chanmsg", "n": 1})
+        steps.append({"do": "sync"})
+    steps.append({"do": "unhold", "ch": 0})
+    steps.append({"do": "release", "ch": 0})
+    steps.append({"do": "wait", "who": "conn"})
+    for l in lst:
+        steps.append({"do": "drain", "l": l})
+    for c in cons:
+        steps.append({"do": "drain", "c": c})
+    steps.append(op("A", "qos"))
+    return {"kind": "listener-closewindow", "cfg": {}, "steps": steps}
+
+
 def backlog(rng, i):
     """More than a megabyte queued behind a stalled transport, then drained by short writes that
     never block again (large accepts, but smaller than the backlog)."""
@@ -1154,7 +1221,7 @@ def batches(rng, maxlen, bases, reps=1):
     return res
 
 
-FAMILIES = {"pressure": pressure, "midframe_close": midframe_close, "undrained": undrained, "connclose_cross": connclose_cross, "reply_then_close": reply_then_close, "chclose_cross": chclose_cross, "listener_split": listener_split, "mixed": mixed, "pubflags": pubflags, "backlog": backlog, "hb_silence": hb_silence, "listener_cross": listener_cross, "close_slow": close_slow, "consumer_drop": consumer_drop, "rpc": rpc, "content": content, "consumer": consumer, "listeners": listeners,
+FAMILIES = {"close_window": close_window, "pressure": pressure, "midframe_close": midframe_close, "undrained": undrained, "connclose_cross": connclose_cross, "reply_then_close": reply_then_close, "chclose_cross": chclose_cross, "listener_split": listener_split, "mixed": mixed, "pubflags": pubflags, "backlog": backlog, "hb_silence": hb_silence, "listener_cross": listener_cross, "close_slow": close_slow, "consumer_drop": consumer_drop, "rpc": rpc, "content": content, "consumer": consumer, "listeners": listeners,
             "connclose": connclose, "chanclose": chanclose}
 
 
